@@ -13,12 +13,12 @@ OPS = ["ceil", "floor", "trunc", "round", "nearbyint", "rint", "nearbyint_as_int
 
 def values(ctx, bits, E, M):
     rng = ctx.rng
-    vals = vf.float_lattice(bits) + fpgen.integral_lattice(bits, rng, ctx.q(400, 200000))
+    vals = vf.float_lattice(bits) + fpgen.integral_lattice(bits, rng, ctx.q(400, 50000))
     bias = (1 << (E - 1)) - 1
     # per binade: mantissas such that x in {k, k +- ulp, k + 1/2, k + 1/2 +- ulp} for k reachable in that binade
     for e in range(bias - 4, bias + M + 4):
         k = e - bias          # x in [2^k, 2^(k+1))
-        for j in range(ctx.q(3, 40)):
+        for j in range(ctx.q(3, 24)):
             frac_bits = M - k  # number of fraction bits below the binary point
             if frac_bits <= 0:
                 mant = rng.getrandbits(M)
@@ -32,7 +32,7 @@ def values(ctx, bits, E, M):
                 mant &= (1 << M) - 1
                 for s in (0, 1):
                     vals.append((s << (bits - 1)) | (e << M) | mant)
-    vals += [rng.getrandbits(bits) for _ in range(ctx.q(400, 300000))]
+    vals += [rng.getrandbits(bits) for _ in range(ctx.q(400, 60000))]
     return vals
 
 
